@@ -7,8 +7,10 @@ package c20
 
 import (
 	"fmt"
+	"runtime"
 	"sort"
 	"sync"
+	"sync/atomic"
 	"testing"
 	"testing/synctest"
 	"time"
@@ -695,6 +697,80 @@ func thrProp(c ThrCase, r *pbt.R) error {
 	return nil
 }
 
+// ===========================================================================
+// Throttle under the real scheduler and the real clock: many callers hammer Call while consumers loop on Next.
+// Only a counting bound that wall-clock bracketing decides is asserted: n permissions need more than (n-1) periods, and
+// all of them fall between the start of the experiment and the return of the last consumer.
+
+type ThrFreeCase struct {
+	Period    int  `json:"period"` // index into thrFreePeriods
+	Trailing  bool `json:"trailing"`
+	Callers   int  `json:"callers"`
+	Consumers int  `json:"consumers"`
+	Long      bool `json:"long"`
+	Procs     int  `json:"procs"` // index into {2, 4, 16}
+}
+
+var thrFreePeriods = []time.Duration{10 * ms, 25 * ms}
+
+func thrFreeGen(s pbt.Src, thorough bool) ThrFreeCase {
+	return ThrFreeCase{Period: s.Intn(2), Trailing: pbt.Bool(s), Callers: 2 + s.Intn(7), Consumers: 1 + s.Intn(3), Long: thorough && pbt.Bool(s), Procs: s.Intn(3)}
+}
+
+func thrFreeProp(c ThrFreeCase, r *pbt.R) error {
+	period := thrFreePeriods[((c.Period%2)+2)%2]
+	callers, consumers := 2+((c.Callers-2)%7+7)%7, 1+((c.Consumers-1)%3+3)%3
+	run := 120 * ms
+	if c.Long {
+		run = 400 * ms
+	}
+	defer runtime.GOMAXPROCS(runtime.GOMAXPROCS([]int{2, 4, 16}[((c.Procs%3)+3)%3]))
+	th := gogu.NewThrottle(period, c.Trailing)
+	var grants, calls atomic.Int64
+	var stop atomic.Bool
+	var wg, cwg sync.WaitGroup
+	t0 := time.Now()
+	for i := 0; i < consumers; i++ {
+		cwg.Add(1)
+		go func() {
+			defer cwg.Done()
+			for th.Next() {
+				grants.Add(1)
+			}
+		}()
+	}
+	for i := 0; i < callers; i++ {
+		wg.Add(1)
+		go func() {
+			defer wg.Done()
+			for !stop.Load() {
+				th.Call()
+				calls.Add(1)
+				runtime.Gosched()
+			}
+		}()
+	}
+	time.Sleep(run)
+	stop.Store(true)
+	wg.Wait()
+	th.Cancel()
+	done := make(chan struct{})
+	go func() { cwg.Wait(); close(done) }()
+	select {
+	case <-done:
+	case <-time.After(10 * time.Second):
+		return fmt.Errorf("throttle(period %v, trailing %v), %d callers, %d consumers: a consumer was still blocked in Next 10s after Cancel", period, c.Trailing, callers, consumers)
+	}
+	elapsed := time.Since(t0)
+	n := grants.Load()
+	if limit := int64(elapsed/period) + 1; n > limit {
+		return fmt.Errorf("throttle(period %v, trailing %v), %d callers hammering Call (%d calls), %d consumers: %d permissions within %v of wall-clock time, but at most one per period allows %d",
+			period, c.Trailing, callers, calls.Load(), consumers, n, elapsed, limit)
+	}
+	r.NonTrivialIf(n >= 2 && calls.Load() > 100, ">= 2 permissions under > 100 concurrent triggers")
+	return nil
+}
+
 func TestProp(t *testing.T) {
 	pbt.Run(t, "C20",
 		&pbt.Check[DelayCase]{
@@ -724,6 +800,13 @@ func TestProp(t *testing.T) {
 				return c.GapsNs != nil || len(c.Evs) > 6 || c.Consumers > 2 || c.LateStart != 0
 			},
 			RapidQuick: 800, RapidThorough: 20000, Bubble: true,
+		},
+		&pbt.Check[ThrFreeCase]{
+			Name: "throttle-free",
+			Rule: "throttle under the REAL scheduler and clock (no bubble): 2..8 goroutines hammer Call while 1..3 consumers loop on Next for 120ms (thorough: also 400ms), period 10 or 25ms, trailing on/off, GOMAXPROCS in {2,4,16}; then Cancel. " +
+				"Only what wall-clock bracketing decides is asserted: n permissions need more than n-1 periods, so n <= elapsed/period + 1 with elapsed measured around the whole experiment; every consumer returns after Cancel. Non-trivial = >= 2 permissions under > 100 concurrent triggers.",
+			Gen: thrFreeGen, Prop: thrFreeProp, OutOfEnum: func(ThrFreeCase, bool) bool { return true },
+			RapidQuick: 5, RapidThorough: 60,
 		},
 	)
 }
